@@ -158,13 +158,13 @@ func c18Scenarios(thorough bool) []*explore.Scenario {
 	if thorough {
 		n = 256
 	}
-	return []*explore.Scenario{c18Scenario(gridClients(n, true))}
+	return []*explore.Scenario{c18Scenario(append(gridClients(n, true), shareListClients(3)...))}
 }
 
 func init() {
 	register(&Prop{ID: "C18", Level: "exploration", Variant: "A", Scenarios: c18Scenarios,
 		Run: func(c *explore.Check, thorough bool) {
-			c.Rule = "every discovered ID, 4 (256) seeds per randomized kind, custom specs, fingerprinted copies x the server forced (CurvePreferences singleton) to EACH group the hello carries a share for x 3 consecutive connections with per-connection scripted entropy: strict per-group share sizes (32/65/97/133/1216), handshake + echo succeeds for every offered share without HRR, negotiated group reported, client random / session id / every key share pairwise distinct across connections. distinct = (client, selected group)"
+			c.Rule = "every discovered ID, 4 (256) seeds per randomized kind, custom specs (incl. every ordered key_share list of <=3 distinct groups among the 2 hybrid and 3 classical groups), fingerprinted copies x the server forced (CurvePreferences singleton) to EACH group the hello carries a share for x 3 consecutive connections with per-connection scripted entropy: strict per-group share sizes (32/65/97/133/1216), handshake + echo succeeds for every offered share without HRR, negotiated group reported, client random / session id / every key share pairwise distinct across connections. distinct = (client, selected group)"
 			c.Assumptions = []string{"freshness is decided as non-repetition under different per-connection Config.Rand streams", "QUIC's empty legacy session id is checked by C23"}
 			runAll(c, c18Scenarios(thorough), 0)
 			c.Gate(c.Total.Counters["non_first_share_selected"] > 10, "non-vacuity: non-first share selected %d times", c.Total.Counters["non_first_share_selected"])
